@@ -19,7 +19,7 @@ StepOK(e, i) ==
   /\ LoopDecision(i <= e.maxiter, FLe(prev, e.thr)) = "refine"   \* budget left and not yet below the threshold
   /\ LET o == StepOutcome(IsFinite(s.norme), FLt(s.ratio, e.stopratio), FGt(s.ratio, FOne)) IN
      /\ s.swapped = Swaps(o)
-     /\ s.brk = Stops(o)
+     /\ s.brk = (Stops(o) /\ o # "fail")                  \* a non-finite candidate returns at once (logged with brk = FALSE)
      /\ Stops(o) => last
      /\ o = "fail" => ~e.end_ok
      /\ o # "fail" =>
